@@ -274,5 +274,7 @@ def site_rows(facts, body):
     # dedupe
     seen = {}
     for d in rows:
-        seen.setdefault(d.key() + (str(d.raw_ret),), d)
+        # two paths are the same row only if they also store the same values (paths that differ in a field write must both be compared)
+        ws = tuple(sorted((str(pl), str(val)) for (pl, val, n, s_) in d.row.writes)) if d.row is not None else ()
+        seen.setdefault(d.key() + (str(d.raw_ret), ws), d)
     return g, list(seen.values())
